@@ -82,6 +82,14 @@ func msgDomain(md protoreflect.MessageDescriptor, depth int, thorough bool) []nv
 			}
 		}
 	}
+	if firstScalar == nil { // oneof-only messages (google.protobuf.Value): take the first scalar member
+		for i := 0; i < fds.Len(); i++ {
+			if f := fds.Get(i); !f.IsList() && !f.IsMap() && f.Message() == nil {
+				firstScalar = f
+				break
+			}
+		}
+	}
 	one := func() *dynamicpb.Message {
 		m := mk()
 		// set every required scalar, plus the first scalar
